@@ -178,6 +178,9 @@ func (m *Machine) contractCall(c *Config, call ssa.CallInstruction, callee *ssa.
 		env.vars[p.Name()] = CV{V: args[i], Signed: isSigned(p.Type()), Typ: p.Type()}
 	}
 	key := funcKey(callee)
+	if m.usedContracts != nil {
+		m.usedContracts[key] = true
+	}
 	for _, r := range fc.Requires {
 		g, err := m.evalBool(env, r.Expr)
 		if err != nil {
